@@ -67,7 +67,7 @@ def check_group(g):
             # the same batch as ENTRIES read (lazily) from a FASTQ file: the result is a new table, the input is left alone, and twice gives it back
             if ename == "ascii" and all(batch):
                 def entries():
-                    d = os.path.join(core.VERIF, ".work", "c14_%d" % os.getpid())
+                    d = os.path.join(os.environ.get("VERIF_RUN_WORK") or os.path.join(core.VERIF, ".work", "replay"), "c14_%d" % os.getpid())
                     os.makedirs(d, exist_ok=True)
                     path = os.path.join(d, "r.fq")
                     with open(path, "w") as f:
@@ -146,7 +146,7 @@ def check_group(g):
                         def from_fasta():
                             # the contig in an indexed FASTA file (wrapped lines) next to a second contig; the intervals asked in a rotated
                             # order (a cycle of length >= 3 when there are that many), alternating with whole-contig intervals of the other contig
-                            d = os.path.join(core.VERIF, ".work", "c14_%d" % os.getpid())
+                            d = os.path.join(os.environ.get("VERIF_RUN_WORK") or os.path.join(core.VERIF, ".work", "replay"), "c14_%d" % os.getpid())
                             os.makedirs(d, exist_ok=True)
                             path = os.path.join(d, "g.fa")
                             for f in (path, path + ".fai"):
